@@ -67,4 +67,11 @@ PROPS = {
         "replay": "index",
         "level": "proof",
     },
+    "C18": {
+        "title": "Text decoding does not depend on how input arrives",
+        "v_units": ["charreader"],
+        "k_groups": [],
+        "replay": "charreader",
+        "level": "proof",
+    },
 }
